@@ -128,7 +128,9 @@ extern "C" int h_c08() {
     // hand over f (append or indexed), then mutate the caller's f through every public mutator
     Frame f = sym_frame(P, C, S, "f");
     dump_f(f, "given");
-    if (fam == 0) c.frame(f); else c.frame(f, 0);
+    const int pre = fam == 1 ? __vp_cfg("pre") : 0, at = fam == 1 ? __vp_cfg("at") : 0;    // pre frames already stored; at < pre replaces one of them
+    for (int k = 0; k < pre; ++k) c.frame(sym_frame(P, C, S, "init"));
+    if (fam == 0) c.frame(f); else c.frame(f, (size_t)at);
     const int mut = __vp_cfg("mutator");
     if (mut == 0 && P) { f.points_nonConst().point_nonConst(0).x(__vp_sym_f32("m")); f.points_nonConst().point_nonConst(0).residual(__vp_sym_f32("m")); }
     else if (mut == 1) { Point q; q.name("zz"); q.y(__vp_sym_f32("m")); f.points_nonConst().point(q, 0); }
@@ -139,7 +141,7 @@ extern "C" int h_c08() {
     else if (mut == 6) { Points other; f.add(other); Analogs oa; f.add(oa); }       // replaces the caller's handles
     else if (mut == 7 && P) { f.points_nonConst().point_nonConst("p0").z(__vp_sym_f32("m")); }
     else if (mut == 8) { SubFrame sf; Channel ch; ch.name("more"); ch.data(__vp_sym_f32("m")); sf.channel(ch); f.analogs_nonConst().subframe(sf); }   // appends a sub-frame
-    __vp_tag("stored"); dump_frame(c.data().frame(0), true);
+    __vp_tag("stored"); dump_frame(c.data().frame(at), true);
   } else if (fam == 2) {
     // README idiom: the same frame object appended several times, then column adds
     Frame f = sym_frame(P, C, S, "f");
